@@ -11,6 +11,7 @@ import (
 	"fmt"
 	"math/big"
 	"strings"
+	"time"
 
 	"verifharness/internal/h"
 
@@ -60,6 +61,7 @@ func runC13Chain(seed uint64, n int, outDir string, replay string) {
 				panic(err)
 			}
 			defer safeStop(w.node)
+			c13TimeDiscount(o, ans, rc, w.node)
 			o.Op("depths %d %d %d %d", params.LockupByteToBlockDepth[0], params.LockupByteToBlockDepth[1], params.LockupByteToBlockDepth[2], params.LockupByteToBlockDepth[3])
 			ans("ok")
 			o.Op("watch w0 w1 w2")
@@ -131,6 +133,10 @@ func runC13Chain(seed uint64, n int, outDir string, replay string) {
 							want.Add(want, p.amt)
 						}
 					}
+					if bal.Cmp(want) != 0 && i == len(watch)-1 {
+						// this address only ever receives Qi->Quai conversions
+						o.Violate("c20-conversion-not-credited-exactly-once", fmt.Sprintf("block %d: the conversion-only address holds %s, the conversions past their lock period sum to %s", num, bal, want))
+					}
 					if bal.Cmp(want) != 0 {
 						kind := "c13-reward-paid-early-or-twice"
 						if bal.Cmp(want) < 0 {
@@ -181,7 +187,6 @@ func runC13Chain(seed uint64, n int, outDir string, replay string) {
 	}
 	o.Close(nil)
 }
-
 
 // c13Issuance: the coinbase ETXs a block emits are exactly the rewards of the block `depth` below it and of the work
 // shares at that height, in proportion to the entropy of each seal (the rule before the KawPow fork), one per seal,
@@ -286,5 +291,50 @@ func c13Issuance(o *h.Out, ans func(string), n *zoneNode, blk *types.WorkObject,
 			o.Violate("c13-seal-rewarded-twice", fmt.Sprintf("seal %x is rewarded by block %d and again by block %d", sh.Hash().Bytes()[:6], prev, num))
 		}
 		rewarded[sh.Hash()] = num
+	}
+}
+
+// c13TimeDiscount: the time discount of a work share's reward (the rule after the inclusion-depth fork), a pure formula
+// of the share's algorithm and the delay between the signature time and the share's own timestamp, on the real function
+func c13TimeDiscount(o *h.Out, ans func(string), rc *h.Rng, n *zoneNode) {
+	mkAux := func(id types.PowID, ts uint32) *types.AuxPow {
+		a := &types.AuxPow{}
+		a.SetPowID(id)
+		a.SetSignature([]byte{})
+		a.SetMerkleBranch([][]byte{})
+		out := []byte{0x76, 0xa9, 0x14, 0x89, 0xab, 0xcd, 0xef, 0x88, 0xac}
+		switch id {
+		case types.Kawpow:
+			a.SetHeader(types.NewAuxPowHeader(&types.RavencoinBlockHeader{Version: 10, HashPrevBlock: types.EmptyRootHash, HashMerkleRoot: types.EmptyRootHash, Time: ts, Bits: 0x1d00ffff, Nonce64: 1, Height: 2, MixHash: types.EmptyRootHash}))
+		case types.SHA_BTC:
+			hd := types.NewBitcoinBlockHeader(10, types.EmptyRootHash, types.EmptyRootHash, 0, 0x1d00ffff, 0)
+			hd.BlockHeader.Timestamp = time.Unix(int64(ts), 0)
+			a.SetHeader(types.NewAuxPowHeader(hd))
+		case types.SHA_BCH:
+			hd := types.NewBitcoinCashBlockHeader(10, types.EmptyRootHash, types.EmptyRootHash, 0, 0x1d00ffff, 0)
+			hd.BlockHeader.Timestamp = time.Unix(int64(ts), 0)
+			a.SetHeader(types.NewAuxPowHeader(hd))
+		default:
+			hd := types.NewLitecoinBlockHeader(10, types.EmptyRootHash, types.EmptyRootHash, 0, 0x1d00ffff, 0)
+			hd.BlockHeader.Timestamp = time.Unix(int64(ts), 0)
+			a.SetHeader(types.NewAuxPowHeader(hd))
+		}
+		a.SetTransaction(types.NewAuxPowCoinbaseTx(id, 100, out, types.EmptyRootHash, 0))
+		return a
+	}
+	ids := []types.PowID{types.Kawpow, types.SHA_BTC, types.SHA_BCH, types.Scrypt}
+	for i := 0; i < 16; i++ {
+		id := ids[rc.Intn(len(ids))]
+		sig := uint32(1_700_000_000 + rc.Intn(1000))
+		delay := []int{0, 1, 2, 3, 4, 10, 16, 17, 18, 19, 25, 29, 30, 31, 40, 100, -1, -5}[rc.Intn(18)]
+		ts := uint32(int64(sig) + int64(delay))
+		reward := new(big.Int).SetUint64(1 + rc.U64()%1_000_000_000_000)
+		share := types.NewWorkObjectHeader(cHash(rc), cHash(rc), big.NewInt(5), big.NewInt(1000), big.NewInt(0), cHash(rc), types.EncodeNonce(1), 0, 1, common.Location{0, 0}, common.Address{}, []byte{0}, mkAux(id, ts),
+			types.NewPowShareDiffAndCount(nil, nil, nil), types.NewPowShareDiffAndCount(nil, nil, nil), nil, nil, nil)
+		got := n.hc.CalculateTimeDiscountedShareReward(share, reward, sig)
+		o.Op("tdisc %d %d %d %s %s %s %s %d %d", params.NewShareLivenessTimeForSha, params.ShareLivenessTime, params.NoPenaltyTimeThreshold, params.UnlivelySharePenalty, params.ShareRewardPenaltyDivisor,
+			b01(id == types.SHA_BTC || id == types.SHA_BCH), reward, sig, ts)
+		ans(got.String())
+		o.Count(fmt.Sprintf("tdisc:pow%d", id))
 	}
 }
